@@ -12,6 +12,9 @@ CHECKS = {
             "All well-nested chains of the 9 context kinds up to the depth bound are executed in three entry styles with an exception raised at every level and handled at every outer level; after each step the active interpretation and the class of fresh probe terms must match the model. Fault enumeration over the stated bounded space.",
             "trusted: the probe-class table per interpretation; exhaustive to depth 3 (quick) / 4 (thorough), sampled one level deeper", "DESIGN.md §6 C17"),
     # id: (technique, level text, level note, design ref)
+    "C18": ("differential monitor: compiled program, exec of printed code, pickled program and traced function vs funsor substitution vs reference evaluator; input-validation monitor",
+            "Expressions of the compiler fragment (depth<=5, shared sub-DAGs, non-commutative ops, constants, real and integer inputs, Tuple roots) are compiled from eager- and reflect-built terms and run on three random bindings each through every execution path; missing and unexpected inputs must raise ValueError. Exploration.",
+            "trusted: fv/refsem.py; printed array constants are a recorded known finding", "DESIGN.md §6 C18"),
     "C19": ("round-trip and pointwise oracle on arange-filled arrays over enumerated shapes/namings; value-at-every-point oracle for align/materialize",
             "Every array shape within the bound, event rank, naming of batch dims and dtype is converted to a funsor and back and indexed at every named point; every permutation of inputs is aligned for tensors, lazy terms, contractions, Gaussians and Deltas. Exploration, exhaustive over the stated bounded space in the thorough tier.",
             "trusted: numpy indexing; fv/refsem.py for lazy terms", "DESIGN.md §6 C19"),
